@@ -1,0 +1,10 @@
+//go:build verif
+
+package fuse
+
+import "bazil.org/fuse/fs"
+
+// VerifAttachNullServer attaches a server that has no kernel connection so
+// that node handlers can be driven directly without a mount. It is only
+// compiled in with the "verif" build tag.
+func (fsys *FileSystem) VerifAttachNullServer() { fsys.server = fs.New(nil, nil) }
